@@ -708,6 +708,9 @@ func (r *runner) exec(cmd string, kv map[string]string) (reply, viol string) {
 		})
 		return e(err), ""
 	case "next":
+		if atoi(kv["n"]) == 0 {
+			return "bad-op", "" // outside the modelled domain (the OnCommit closure indexes an empty slice)
+		}
 		keys, err := r.next(sc, atoi(kv["acct"]), atoi(kv["n"]), kv["int"] == "1")
 		if err != nil {
 			return e(err), ""
